@@ -385,8 +385,8 @@ func plans() map[string]*propertyPlan {
 			assumptions: []string{"texts are at most 64 KiB (quick) or 1 MiB (thorough); recursion proportional to nesting beyond that is not explored", "reads after a failed Process are not driven: nothing but errors comes back from it", "CPU seconds of the child, not wall-clock time, decide 'returns in bounded time'"},
 			minObserved: map[string]int64{"cases": 20000, "outcome:clean": 500, "outcome:process-error": 2000},
 			nontrivial:  "nontrivial", evaluations: "cases",
-			quick:    []spec{{family: "mutate", cases: 40000, cpuS: 600, asKB: 8 << 20, wallS: 1500}, {family: "hazards", cases: 30000, cpuS: 600, asKB: 8 << 20, wallS: 1500}, {family: "lexical", cases: 1200, params: map[string]string{"case_cpu_s": "120"}, cpuS: 900, asKB: 8 << 20, wallS: 1500}, {family: "corpus", cases: 6000, cpuS: 600, asKB: 8 << 20, wallS: 1500}},
-			thorough: []spec{{family: "mutate", cases: 900000, cpuS: 7200, asKB: 8 << 20, wallS: 9000}, {family: "hazards", cases: 500000, cpuS: 7200, asKB: 8 << 20, wallS: 9000}, {family: "lexical", cases: 12000, params: map[string]string{"case_cpu_s": "300"}, cpuS: 7200, asKB: 8 << 20, wallS: 9000}, {family: "corpus", cases: 100000, cpuS: 7200, asKB: 8 << 20, wallS: 9000}},
+			quick:    []spec{{family: "mutate", cases: 40000, cpuS: 600, asKB: 8 << 20, wallS: 1500}, {family: "hazards", cases: 30000, cpuS: 600, asKB: 8 << 20, wallS: 1500}, {family: "lexical", cases: 1200, params: map[string]string{"case_cpu_s": "120"}, cpuS: 900, asKB: 8 << 20, wallS: 1500}, {family: "corpus", cases: 6000, cpuS: 600, asKB: 8 << 20, wallS: 1500}, {family: "deep", cases: 2, params: map[string]string{"case_cpu_s": "300"}, cpuS: 900, asKB: 16 << 20, wallS: 1500}},
+			thorough: []spec{{family: "mutate", cases: 900000, cpuS: 7200, asKB: 8 << 20, wallS: 9000}, {family: "hazards", cases: 500000, cpuS: 7200, asKB: 8 << 20, wallS: 9000}, {family: "lexical", cases: 12000, params: map[string]string{"case_cpu_s": "300"}, cpuS: 7200, asKB: 8 << 20, wallS: 9000}, {family: "corpus", cases: 100000, cpuS: 7200, asKB: 8 << 20, wallS: 9000}, {family: "deep", cases: 2, params: map[string]string{"case_cpu_s": "300"}, cpuS: 900, asKB: 16 << 20, wallS: 1500}},
 		},
 		"C03": {
 			level:       "exploration",
